@@ -489,9 +489,9 @@ def run(chk):
         chk.function(FILE, q, "P")
     only = getattr(chk, "only", None)
     if not only or "proof" in only:
-        run_call(chk)
-        run_helpers(chk)
-        run_apply_to(chk)
+        chk.guard(run_call)
+        chk.guard(run_helpers)
+        chk.guard(run_apply_to)
         chk.discharge(workers=1)
     chk.assume("assumed contract T: PAR.as_completed(f, xs) yields f(x) exactly once per x, in any order (multiprocessing "
                "result delivery is trusted; stood in for by the bounded tier)")
